@@ -632,6 +632,17 @@ func (w *world) checkReplica(rep *replica, when string) {
 	if !has {
 		w.r.Fail("head-not-attached", "", "%s (%s): HasChanges(heads) is false", rep.name, when)
 	}
+	// the in-memory view starts at a root from which every head is reachable (a view reduced to a
+	// snapshot that is not an ancestor of all heads has lost changes it still claims as heads)
+	view := map[string]bool{}
+	rep.tree.Lock()
+	_ = rep.tree.IterateRoot(nil, func(c *objecttree.Change) bool { view[c.Id] = true; return true })
+	rep.tree.Unlock()
+	for _, h := range th {
+		if !view[h] {
+			w.r.Fail("head-not-in-view", "", "%s (%s): head %s is not reachable from the root of the in-memory tree (view of %d changes)", rep.name, when, short(h), len(view))
+		}
+	}
 	// every stored change is an honest one (C01 runs have no byzantine input)
 	for _, c := range res {
 		if c.id == w.treeId {
